@@ -274,8 +274,8 @@ func frameRead(r *prng.R, s *out.Sink, tier string) {
 
 type liveLogger struct{ warns int64 }
 
-func (l *liveLogger) DebugEnabled() bool                { return false }
-func (l *liveLogger) Debugf(string, ...interface{})     {}
+func (l *liveLogger) DebugEnabled() bool               { return false }
+func (l *liveLogger) Debugf(string, ...interface{})    {}
 func (l *liveLogger) Warnf(f string, a ...interface{}) { atomic.AddInt64(&l.warns, 1) }
 
 type liveParty struct {
